@@ -7,6 +7,10 @@
                   after the handshake blocks the fetch for ever
        "absolute" one absolute deadline per hop armed after the dial, covering the whole exchange (current tree)
        "perread"  the deadline is re-armed by every byte received: a trickling peer extends it for ever
+       "shared"   the hops of a chain draw on one budget T counted from the start of the fetch, and a hop that finds
+                  the budget used up arms no deadline at all: slow (but not faulty) earlier hops leave a stalling
+                  later peer unwatched - EventuallyReturns is refuted (MC_Faults_shared.cfg)
+   Peers that are not faulty may still be slow: up to T-1 ticks while connecting and again while answering.
    Time is a logical clock in units of the configured timeout T (TicksPerT ticks).                    *)
 EXTENDS Integers, Sequences, FiniteSets, TLC
 CONSTANTS Hops, Variant, TicksPerT, BodyUnits
@@ -14,31 +18,37 @@ CONSTANTS Hops, Variant, TicksPerT, BodyUnits
 Stages == <<"dial", "handshake", "send", "status", "headers", "body">>
 Kinds == {"none", "refuse", "reset", "close", "stall", "trickle", "garbage"}
 
-VARIABLES hop, stage, left, clock, hopStart, lastByte, result, fault, partial
-vars == <<hop, stage, left, clock, hopStart, lastByte, result, fault, partial>>
+VARIABLES hop, stage, left, clock, hopStart, lastByte, result, fault, partial, slack, armed
+vars == <<hop, stage, left, clock, hopStart, lastByte, result, fault, partial, slack, armed>>
 
 StageIdx(s) == CHOOSE i \in 1..6 : Stages[i] = s
 Init == /\ hop = 0 /\ stage = "dial" /\ left = BodyUnits /\ clock = 0 /\ hopStart = 0 /\ lastByte = 0
-        /\ result = "pending" /\ partial = FALSE
+        /\ result = "pending" /\ partial = FALSE /\ slack = TicksPerT - 1 /\ armed = TRUE
         /\ fault \in [hop : 0..Hops, stage : {"dial", "handshake", "status", "headers", "body"}, kind : Kinds]
 
 AtFault == fault.kind # "none" /\ fault.hop = hop /\ fault.stage = stage
 Covered == CASE Variant = "pinned"   -> stage \in {"dial", "handshake"}
+             [] Variant = "shared"   -> stage \in {"dial", "handshake"} \/ armed
              [] OTHER                -> TRUE
 Deadline == CASE Variant = "perread" /\ stage \notin {"dial", "handshake"} -> lastByte + TicksPerT
               [] Variant = "pinned" -> hopStart + TicksPerT
+              [] Variant = "shared" -> IF stage \in {"dial", "handshake"} THEN hopStart + TicksPerT ELSE TicksPerT
               [] OTHER -> IF stage \in {"dial", "handshake"} THEN hopStart + TicksPerT ELSE hopStart + 2 * TicksPerT
 
-Finish(r) == result' = r /\ UNCHANGED <<hop, stage, left, clock, hopStart, lastByte, fault, partial>>
+Finish(r) == result' = r /\ UNCHANGED <<hop, stage, left, clock, hopStart, lastByte, fault, partial, slack, armed>>
 
 (* an exchange proceeds normally *)
 Progress ==
     /\ result = "pending" /\ ~AtFault
     /\ IF stage = "body" THEN
           IF hop < Hops THEN /\ hop' = hop + 1 /\ stage' = "dial" /\ hopStart' = clock /\ lastByte' = clock
-                             /\ UNCHANGED <<left, clock, result, fault, partial>>
+                             /\ slack' = TicksPerT - 1
+                             /\ UNCHANGED <<left, clock, result, fault, partial, armed>>
           ELSE Finish("ok")
        ELSE /\ stage' = Stages[StageIdx(stage) + 1] /\ lastByte' = clock
+            \* connected: the exchange deadline is armed here - in "shared" only while the budget of the whole fetch lasts
+            /\ IF stage = "handshake" THEN slack' = TicksPerT - 1 /\ armed' = (Variant # "shared" \/ clock < TicksPerT)
+               ELSE UNCHANGED <<slack, armed>>
             /\ UNCHANGED <<hop, left, clock, hopStart, result, fault, partial>>
 
 (* the peer misbehaves in a way the client notices at once *)
@@ -46,7 +56,17 @@ Abrupt ==
     /\ result = "pending" /\ AtFault /\ fault.kind \in {"refuse", "reset", "close", "garbage"}
     /\ partial' = (stage = "body")            \* part of the response was delivered
     /\ result' = "err"                        \* decoder / reader reports the short or bad input
-    /\ UNCHANGED <<hop, stage, left, clock, hopStart, lastByte, fault>>
+    /\ UNCHANGED <<hop, stage, left, clock, hopStart, lastByte, fault, slack, armed>>
+
+(* a peer that is not faulty takes its time, within its limits *)
+Slow ==
+    /\ result = "pending" /\ ~AtFault /\ slack > 0
+    /\ ~(Covered /\ clock >= Deadline)
+    /\ clock' = clock + 1 /\ slack' = slack - 1
+    /\ UNCHANGED <<hop, stage, left, hopStart, lastByte, result, fault, partial, armed>>
+SlowTimesOut ==         \* (only "shared" can get here: elsewhere the slack stays within every deadline)
+    /\ result = "pending" /\ ~AtFault /\ Covered /\ clock >= Deadline /\ Variant = "shared"
+    /\ result' = "err" /\ UNCHANGED <<hop, stage, left, clock, hopStart, lastByte, fault, partial, slack, armed>>
 
 (* the peer goes silent or sends one unit per tick *)
 Tick ==
@@ -55,20 +75,22 @@ Tick ==
     /\ clock' = clock + 1
     /\ IF fault.kind = "trickle" /\ left > 0 THEN left' = left - 1 /\ lastByte' = clock + 1
        ELSE UNCHANGED <<left, lastByte>>
-    /\ UNCHANGED <<hop, stage, hopStart, result, fault, partial>>
+    /\ UNCHANGED <<hop, stage, hopStart, result, fault, partial, slack, armed>>
 TrickleDone ==
     /\ result = "pending" /\ AtFault /\ fault.kind = "trickle" /\ left = 0
-    /\ fault' = [fault EXCEPT !.kind = "none"] /\ UNCHANGED <<hop, stage, left, clock, hopStart, lastByte, result, partial>>
+    /\ fault' = [fault EXCEPT !.kind = "none"] /\ UNCHANGED <<hop, stage, left, clock, hopStart, lastByte, result, partial, slack, armed>>
 DeadlineFires ==
     /\ result = "pending" /\ Covered /\ clock >= Deadline /\ AtFault
-    /\ result' = "err" /\ UNCHANGED <<hop, stage, left, clock, hopStart, lastByte, fault, partial>>
+    /\ result' = "err" /\ UNCHANGED <<hop, stage, left, clock, hopStart, lastByte, fault, partial, slack, armed>>
 
-Next == Progress \/ Abrupt \/ Tick \/ TrickleDone \/ DeadlineFires
+Next == Progress \/ Abrupt \/ Tick \/ TrickleDone \/ DeadlineFires \/ Slow \/ SlowTimesOut
 Spec == Init /\ [][Next]_vars /\ WF_vars(Next)
 
 (* C05 *)
 NoPartialDoc == result = "ok" => ~partial
-ElapsedBounded == clock <= 2 * TicksPerT * (Hops + 1)
+ElapsedBounded == clock <= 3 * TicksPerT * (Hops + 1)      \* what T_Faults demands of the real fetch: three timeouts per hop
 EventuallyReturns == <>(result # "pending")
+(* the safety core of it: a peer that has gone silent is always being watched by a deadline *)
+NeverUnwatched == ~(result = "pending" /\ AtFault /\ fault.kind \in {"stall", "trickle"} /\ ~Covered)
 Bound == clock <= 3 * TicksPerT * (Hops + 2)
 =============================================================================
